@@ -43,10 +43,12 @@ static const char *UI_KEY[] = {NULL, "k", LONG_KEY, "se:cr:et:"};     /* index 3
 static const char *HOSTS[] = {"aggr.example.test", "192.0.2.7", "[2001:db8::7]", "[::ffff:192.0.2.9]"};       /* the last: IPv6 literal with an embedded dotted quad */
 static const char *HOSTS_BARE[] = {"aggr.example.test", "192.0.2.7", "2001:db8::7", "::ffff:192.0.2.9"};
 static const unsigned PORTS[] = {0, 1, 80, 65535};
-static const char *PATHS[] = {NULL, "/", "/a/b.c"};
+static const char *PATHS[] = {NULL, "/", "/a/b.c", "/~a/b!$&'()*+,;=:@-._c"};     /* the last one (part odd-query only): every character class RFC 3986 allows in a path segment */
 #define QUERY "x=1&y=b"
 #define QUERY_QMARK "?x=1??y=b?"
 #define QUERY_DELIMS "m=/a:b@c?d"
+#define QUERY_MARKS "~t=!$&'()*+,;=-._~"
+#define FRAG_ODD "~f/?:@!$&'()*+,;=-._"
 #define FRAG "frag1"
 #define EXPL_ID "expl-id.7"
 #define EXPL_KEY "Expl_key~42"
@@ -88,7 +90,8 @@ static void compose(ccase *c) {
 	/* queries made of the other characters RFC 3986 allows there: '?' (also as the first character), '/', ':' and '@' */
 	if (c->q == 3) o += snprintf(c->tail + o, sizeof c->tail - (size_t)o, "?%s", QUERY_QMARK);
 	if (c->q == 4) o += snprintf(c->tail + o, sizeof c->tail - (size_t)o, "?%s", QUERY_DELIMS);
-	if (c->f) o += snprintf(c->tail + o, sizeof c->tail - (size_t)o, "#%s", FRAG);
+	if (c->q == 5) o += snprintf(c->tail + o, sizeof c->tail - (size_t)o, "?%s", QUERY_MARKS);
+	if (c->f) o += snprintf(c->tail + o, sizeof c->tail - (size_t)o, "#%s", c->q >= 3 ? FRAG_ODD : FRAG);
 	if (c->u) snprintf(c->uri, sizeof c->uri, "%s://%s:%s@%s", c->scheme, UI_USER[c->u], UI_KEY[c->u], c->tail);
 	else snprintf(c->uri, sizeof c->uri, "%s://%s", c->scheme, c->tail);
 }
@@ -451,7 +454,7 @@ static void check_leak(const ccase *c, const char *where, const char *s) {
 	const char *at = strchr(s, '@');
 	if (!c->u) return;
 	/* an '@' is the user-info separator only inside the authority; the composed query may carry one of its own */
-	if (at != NULL && c->q == 4) {
+	if (at != NULL && c->q >= 3) {
 		const char *a = strstr(s, "://");
 		a = a ? a + 3 : s;
 		if (at >= a + strcspn(a, "/?#")) at = NULL;
@@ -594,7 +597,7 @@ static void self_check(void) {
 		for (k = 0; k < 2; k++) {
 			for (h = 0; h < 4; h++) if (strstr(HOSTS[h], cr[k])) vf_harness_error("component contains credential string");
 			for (a = 1; a < 3; a++) if (strstr(PATHS[a], cr[k])) vf_harness_error("component contains credential string");
-			if (strstr(QUERY, cr[k]) || strstr(QUERY_QMARK, cr[k]) || strstr(QUERY_DELIMS, cr[k]) || strstr(FRAG, cr[k]) || strstr("65535", cr[k])) vf_harness_error("component contains credential string");
+			if (strstr(QUERY, cr[k]) || strstr(QUERY_QMARK, cr[k]) || strstr(QUERY_DELIMS, cr[k]) || strstr(QUERY_MARKS, cr[k]) || strstr(FRAG_ODD, cr[k]) || strstr(PATHS[3], cr[k]) || strstr(FRAG, cr[k]) || strstr("65535", cr[k])) vf_harness_error("component contains credential string");
 			for (b = 0; b < NSCH; b++) if (SCH[b].rewrite && strstr(SCH[b].rewrite, cr[k])) vf_harness_error("component contains credential string");
 		}
 	}
@@ -910,12 +913,12 @@ static void run(void) {
 		vf_outcome("long-query:done");
 		vf_case_end(1);
 	}
-	/* (6) queries with '?', '/', ':' and '@' in them: same expectations */
+	/* (6) queries, paths and fragments made of the other characters RFC 3986 allows there ('?', '/', ':', '@', '~', sub-delimiters): same expectations */
 	memset(&c, 0, sizeof c);
 	for (c.b = 0; c.b < NSCH; c.b++)
-	for (c.q = 3; c.q < 5; c.q++)
+	for (c.q = 3; c.q < 6; c.q++)
 	for (c.u = 0; c.u < 2; c.u++)
-	for (c.a = 0; c.a < 3; c.a++)
+	for (c.a = 0; c.a < 4; c.a++)
 	for (c.f = 0; c.f < 2; c.f++)
 	for (c.v = 0; c.v < NSV; c.v++) {
 		int crashed;
